@@ -8,7 +8,10 @@ CONSTANTS
   FixUnpad = FALSE
   FixProto = FALSE
   FixShardLens = FALSE
+  MaxSession = 3
+  RecordOnlyAccepted = TRUE
 INIT Init
 NEXT Next
-INVARIANTS Reconstructs CorruptHarmless NeverFails MalformedWireRejected BadPaddingRejected HonestAccepted CorruptRejected DuplicateRejected Pipeline PaddingOK ThresholdsOK
+INVARIANTS Reconstructs CorruptHarmless NeverFails MalformedWireRejected BadPaddingRejected HonestAccepted CorruptRejected DuplicateRejected Pipeline PaddingOK ThresholdsOK SessionJunkRejected ThresholdStaysReachable
+PROPERTIES RejectedLeavesValidatorUnchanged GenuineAcceptedIffNew
 CHECK_DEADLOCK FALSE
